@@ -282,6 +282,51 @@ func memPath(v ssa.Value) (string, bool) {
 }
 
 // mayWrite: can instruction in write the storage denoted by path?
+// privateLocal: the address is a field (of a field …) of a local variable whose address is only ever used to
+// select fields, load and store — it is not passed to a call, stored, captured or converted.
+func privateLocal(fa *ssa.FieldAddr) bool {
+	var root ssa.Value = fa
+	for {
+		f, ok := root.(*ssa.FieldAddr)
+		if !ok {
+			break
+		}
+		root = f.X
+	}
+	a, ok := root.(*ssa.Alloc)
+	if !ok || a.Heap {
+		return false
+	}
+	var okUse func(v ssa.Value, d int) bool
+	okUse = func(v ssa.Value, d int) bool {
+		refs := v.Referrers()
+		if refs == nil || d > 6 {
+			return false
+		}
+		for _, ref := range *refs {
+			switch x := ref.(type) {
+			case *ssa.FieldAddr:
+				if !okUse(x, d+1) {
+					return false
+				}
+			case *ssa.UnOp:
+				if x.Op != token.MUL {
+					return false
+				}
+			case *ssa.Store:
+				if x.Val == v {
+					return false // the address itself is stored somewhere
+				}
+			case *ssa.DebugRef:
+			default:
+				return false
+			}
+		}
+		return true
+	}
+	return okUse(a, 0)
+}
+
 func (p *prover) mayWrite(in ssa.Instruction, path string, load *ssa.UnOp) bool {
 	switch x := in.(type) {
 	case *ssa.Store:
@@ -331,6 +376,9 @@ func (p *prover) mayWrite(in ssa.Instruction, path string, load *ssa.UnOp) bool 
 		lfa, _ := load.X.(*ssa.FieldAddr)
 		if lfa == nil {
 			return true
+		}
+		if privateLocal(lfa) {
+			return false // a field of a local that never leaves the function (a spilled value receiver): no callee can reach it
 		}
 		nt, f, ok := FieldOf(lfa)
 		if !ok {
@@ -959,6 +1007,46 @@ func (p *prover) factsAt(b *ssa.BasicBlock) []ineq {
 	return out
 }
 
+// neqStrengthen: the disequalities x != y that hold at b turn a known x <= y into x < y (and y <= x into y < x):
+// integers, so `pending != 0` with pending >= 0 gives pending >= 1.
+func (p *prover) neqStrengthen(b *ssa.BasicBlock, facts []ineq, condsExtra []Cond) []ineq {
+	isInt := func(t types.Type) bool {
+		bt, ok := t.Underlying().(*types.Basic)
+		return ok && bt.Info()&types.IsInteger != 0
+	}
+	out := facts
+	for _, cd := range append(DomConds(b), condsExtra...) {
+		v, truth := cd.V, cd.Truth
+		for {
+			u, ok := v.(*ssa.UnOp)
+			if !ok || u.Op != token.NOT {
+				break
+			}
+			v, truth = u.X, !truth
+		}
+		bo, ok := v.(*ssa.BinOp)
+		if !ok || !isInt(bo.X.Type()) || !isInt(bo.Y.Type()) {
+			continue
+		}
+		op := bo.Op
+		if !truth {
+			op = negateOp(op)
+		}
+		if op != token.NEQ {
+			continue
+		}
+		x, y := p.linOf(bo.X, 0), p.linOf(bo.Y, 0)
+		all := append(append([]ineq{}, out...), p.axioms...)
+		why := fmt.Sprintf("branch %s != %s with the order known", bo.X.Name(), bo.Y.Name())
+		if entails(all, leq(x, y, "")) {
+			out = append(out, lt(x, y, why))
+		} else if entails(all, leq(y, x, "")) {
+			out = append(out, lt(y, x, why))
+		}
+	}
+	return out
+}
+
 // prove: do the facts at block b (plus extra hypotheses) imply every goal?
 func (p *prover) prove(goals []ineq, b *ssa.BasicBlock, extra []ineq) (bool, string) {
 	facts := append(p.factsAt(b), extra...)
@@ -1072,6 +1160,13 @@ func (be *boundsEngine) proveGoal(p *prover, g ineq, b *ssa.BasicBlock, hyps []i
 	if entails(all, g) {
 		return true, "dominating comparisons and definitions"
 	}
+	if f2 := p.neqStrengthen(b, facts, nil); len(f2) > len(facts) {
+		facts = f2
+		all = append(append([]ineq{}, facts...), p.axioms...)
+		if entails(all, g) {
+			return true, "dominating comparisons (a disequality sharpened by a known order) and definitions"
+		}
+	}
 	if depth >= 3 {
 		return false, ""
 	}
@@ -1082,6 +1177,13 @@ func (be *boundsEngine) proveGoal(p *prover, g ineq, b *ssa.BasicBlock, hyps []i
 		all = append(append(append([]ineq{}, facts...), lemmas...), p.axioms...)
 		if entails(all, g) {
 			return true, "induction over loop variables"
+		}
+		withLemmas := append(append([]ineq{}, facts...), lemmas...)
+		if f2 := p.neqStrengthen(b, withLemmas, nil); len(f2) > len(withLemmas) {
+			all = append(append([]ineq{}, f2...), p.axioms...)
+			if entails(all, g) {
+				return true, "induction over loop variables (a disequality sharpened by a proved bound)"
+			}
 		}
 	}
 	if p.depth < 2 && be.viaCallers(p, p.fn, b, g, append(facts, lemmas...)) {
